@@ -105,7 +105,9 @@ def isotxs_specs(quick, fmt="isotxs"):
         for kind in kinds:
             for lay in band_layouts(ng):
                 for nsblok in (1, 2, 3):
-                    if quick and nsblok > 1 and (kind not in (100, 200, 102) or (nsblok == 3 and (ng < 3 or gam))):
+                    # quick: sub-blocked files for three block kinds; 3 sub-blocks for 1 group (sub-blocks
+                    # wholly beyond the last group) and, ISOTXS only, for 3 groups
+                    if quick and nsblok > 1 and (kind not in (100, 200, 102) or (nsblok == 3 and (ng == 2 or (gam and ng == 3)))):
                         continue
                     add(ng, [_nuc(blocks=[[kind, 1, lay]])], nsblok=nsblok, tag="band")
     # C. several blocks / nuclides, absent blocks (ords 0), no blocks at all
